@@ -10,10 +10,9 @@ LEAN_MODULES = ['VotelibProofs.Props.C04']
 GEN_MODULES = ['Quota']
 REQUIRED = ['pscCheck_sound_complete', 'unsupported_coalition_trivial', 'droop_at_least_half', 'hare_at_least_half',
             'majority_first_choice_wins', 'mutual_majority', 'gregory_sub_bound', 'hare_sub_bound', 'psc_general',
-            'solidStrict_iff', 'solidStrict_of_no_shared_rank', 'droop_exceeds', 'hare_exceeds', 'psc_droop', 'psc_check_passes', 'result_shape', 'droop_positive', 'hare_positive', 'full_list_or_refusal',
-            'no_infinite_loop', 'psc_shared_rank_witness', 'psc_shared_rank_witness_spec']
-UNPROVED = ['psc for coalitions whose supporting ballots contain shared ranks (false of the current code: psc_shared_rank_witness; '
-            'holds on 40 000 generated runs with notes/proposed_fix_C04_shared_rank_transfer.diff applied)']
+            'droop_exceeds', 'hare_exceeds', 'psc_droop', 'psc_check_passes', 'result_shape', 'droop_positive', 'hare_positive', 'full_list_or_refusal',
+            'no_infinite_loop', 'shared_rank_coalition_seated']
+UNPROVED = []
 REQUIRED_COUNTERS = ['coalition_k_ge_1_and_larger', 'refusal', 'hare', 'shared_ranks', 'majority_winner', 'psc_false',
                      'multi_seat', 'hare_quota', 'impl_outcome_checked', 'fraction_weights']
 RULE = ('ranked profiles over 1-6 candidates, 1-10 ballot types, with and without shared ranks, truncated ballots, weights from a '
@@ -24,8 +23,8 @@ RULE = ('ranked profiles over 1-6 candidates, 1-10 ballot types, with and withou
         'Non-trivial = at least two candidates and a result that is not an error; distinct by canonical request.')
 NOT_VERIFIED = ['random module: Hare draws are recorded and replayed to the model (DrawOK contract checked on both sides)',
                 'iteration order of frozensets (shared ranks) as observed in the harness process',
-                'PSC is proved for coalitions supported by ballots without shared ranks; for profiles with shared ranks it is checked '
-                'on every model and implementation outcome with the verified checker pscCheck (and is false, see known finding)']
+                'PSC is proved for the selector form (max_seats = 1); in addition every model and implementation outcome is run through '
+                'the verified checker pscCheck']
 EXHAUSTIVE = {'thorough': False}
 _CACHE = {}
 
@@ -280,7 +279,7 @@ def _directed(rng):
     yield from _checked(_case(rng, [[[0, 1], '9'], [[0, 2], num_str(4 + r(0, 2))], [[1], '3'], [[2], '3']], 2, method='hare', seed=r(0, 9), tags=['directed']))
     # shared ranks (outside any coalition prefix that matters)
     yield from _checked(_case(rng, [[[0, [1, 2]], num_str(5 + r(0, 2))], [[1], '3'], [[2, 1], '2'], [[3], '1']], 2, tags=['directed']))
-    # a coalition whose supporters share a rank inside it (ranked_next passes over the co-ranked candidate: known finding)
+    # a coalition whose supporters share a rank inside it (repaired by 4eda093: ranked_next used to pass over the co-ranked candidate)
     x = r(0, 2)
     yield from _checked(_case(rng, [[[[0, 1], 2], num_str(10 + x)], [[2], num_str(6 + x)], [[0], '1']], 1,
                               quota=rng.choice(['droop', 'hare']), tags=['directed', 'shared_rank_coalition']))
@@ -401,15 +400,14 @@ def describe(case):
 TECHNIQUE = ('Lean 4 proofs about the executable STV model (majority winner, result shape, verified PSC checker) + differential '
              'correspondence of the model with votelib; the verified checker is applied to every outcome')
 LEVEL_TEXT = ('TransferableVoteSelector.evaluate is the Lean model of C03 run to completion (the independently computed weighted-inclusive-'
-              'Gregory count of the statement). Proved for all profiles, seat numbers and both transferers (Gregory; Hare under the draw '
-              'contract): proportionality for solid coalitions for every candidate set S and every k (k quotas of solid support by '
-              'ballots whose ranks inside the coalition are not shared => at least min(k,|S|) members of S in every returned list; Droop and Hare quota, '
-              'eliminate_step -1, accept_quota_equal), hence every outcome on a profile without shared ranks passes the verified checker; '
-              'majority first choice and mutual majority for one seat; every returned list has exactly n distinct candidates; with '
-              'Gregory transfer the evaluation returns such a list or refuses with NotImplementedError whenever 1 <= n <= #candidates '
-              '(no infinite loop, no other outcome); the decidable checker pscCheck is sound and complete for the statement quantified '
-              'over all candidate subsets and all k. The property is FALSE of the current code when supporters of a coalition share a '
-              'rank inside it (witness theorem, known finding, proposed fix); the checker is applied to every outcome.')
+              'Gregory count of the statement). Proved for all profiles - shared ranks anywhere, also inside a coalition - all seat '
+              'numbers and both transferers (Gregory; Hare under the draw contract): proportionality for solid coalitions for every '
+              'candidate set S and every k (k quotas of solid support => at least min(k,|S|) members of S in every returned list; Droop '
+              'and Hare quota, eliminate_step -1, accept_quota_equal), hence every outcome passes the verified checker; majority first '
+              'choice and mutual majority for one seat; every returned list has exactly n distinct candidates; with Gregory transfer the '
+              'evaluation returns such a list or refuses with NotImplementedError whenever 1 <= n <= #candidates (no infinite loop, no '
+              'other outcome); the decidable checker pscCheck is sound and complete for the statement quantified over all candidate '
+              'subsets and all k, and is applied to every model and implementation outcome.')
 LEVEL_NOTE = ('Trusted: Lean kernel + propext/Classical.choice/Quot.sound; translate.py for the quota functions; the correspondence '
               'harness (<= 6 candidates, <= 10 ballot types); random module replaced by recorded draws; frozenset iteration order. '
-              'Not proved (false): PSC for coalitions supported through shared ranks.')
+              'Nothing of the statement is left unproved for the selector form; the distributor form (max_seats > 1) is covered by the correspondence only.')
